@@ -6,7 +6,7 @@
 //           "jobs":[{ "id":"..", "css":"text"  |  "files":{"/a.css":".."},"entry":"/a.css",  "dom":[..]?,
 //                     "universe":["margin-top",...]?  (extra longhands added to the set `all:<kw>` expands over),
 //                     "envs":[{"conds":{"media:(min-width:100px)":true,...},"feats":["nesting","is","where",
-//                              "not-list","inset","hex-alpha","rgb-space","media-range"]},...] }] }
+//                              "not-list","inset","hex-alpha","rgb-space","media-range","math-fn"]},...] }] }
 // stdout: { "results":[{ "id", "error":null|"msg (evaluator crash on this job only)",
 //             "winners":[ per env: {"e1":{"<longhand>":"<canonical value>",...},...} ],
 //             "features":[sorted features used in the sheet(s)], "atoms":[sorted condition atoms seen],
@@ -1008,6 +1008,7 @@ function scanValueFeats(comps, fx) {
     if (c.t === 'hash') { if ((c.v.length === 4 || c.v.length === 8) && /^[0-9a-fA-F]+$/.test(c.v)) fx.add('hex-alpha'); }
     else if (c.t === 'func') {
       if (c.name === 'rgb' || c.name === 'rgba' || c.name === 'hsl' || c.name === 'hsla') parseColor(c, fx);
+      if (c.name === 'min' || c.name === 'max' || c.name === 'clamp') fx.add('math-fn'); // comparison functions (Values 4): newer than calc()
       scanValueFeats(c.args, fx);
     } else if (c.t === 'blk') scanValueFeats(c.items, fx);
   }
